@@ -216,6 +216,58 @@ let do_bs args =
     Buffer.contents out
   | _ -> "BADARGS"
 
+(* ---- the compiler model ---- *)
+let rec rtype_str = function
+  | RName n -> "N" ^ hex n
+  | RChar -> "C"
+  | RString -> "S"
+  | RPath p -> "P" ^ String.concat "." (List.map hex p)
+  | RBox t -> "B(" ^ rtype_str t ^ ")"
+  | ROption t -> "O(" ^ rtype_str t ^ ")"
+  | RVec t -> "V(" ^ rtype_str t ^ ")"
+
+let decl_str = function
+  | DStruct (n, fs, pos) ->
+    Printf.sprintf "struct:%s:%d:%s" (hex n) (if pos then 1 else 0)
+      (String.concat "," (List.map (fun (f, t) -> hex f ^ "=" ^ rtype_str t) fs))
+  | DUnit n -> "unit:" ^ hex n
+  | DAlias (n, t) -> Printf.sprintf "alias:%s:%s" (hex n) (rtype_str t)
+  | DEnum (n, vs) ->
+    Printf.sprintf "enum:%s:%s" (hex n) (String.concat "," (List.map (fun (v, b) -> hex v ^ (if b then "*" else "")) vs))
+
+let gf_err_str = function
+  | GENegLookaheadFields -> "neg-lookahead-fields"
+  | GEPosLookaheadFields -> "pos-lookahead-fields"
+  | GEIncludeNotFound n -> "include-not-found:" ^ hex n
+
+let cerr_str = function
+  | CEFields e -> gf_err_str e
+  | CEStringExport -> "string-export"
+  | CEWhitespaceSkips -> "whitespace-skips"
+  | CEMemoizeNoClone -> "memoize-no-clone"
+  | CEPositionVariant t -> "position-variant:" ^ hex t
+  | CEInvalidCodepoint n -> Printf.sprintf "invalid-codepoint:%d" (int_of_n n)
+  | CENonAsciiInsensitive -> "non-ascii-insensitive"
+  | CEOverrideExport -> "override-export"
+  | CEOverridePosition -> "override-position"
+  | CEEnumOverrideArity -> "enum-override-arity"
+  | CEMixOverride -> "mix-override"
+
+let names_of s = if s = "-" || s = "" then [] else List.map unhex (String.split_on_char ',' s)
+
+let do_compile args =
+  match args with
+  | [gid; derives; ctx] ->
+    let g = Hashtbl.find grammars gid in
+    let s = { cs_derives = names_of derives; cs_ctx = (if ctx = "-" then None else Some (names_of ctx)) } in
+    let tail = Printf.sprintf "idents=%d\tderives=%d" (if idents_ok_std g x_raw_kw_guard_run s then 1 else 0) (if derives_ok_std s then 1 else 0) in
+    (match compile_std g s with
+     | GOk ds -> "OK\t" ^ String.concat ";" (List.map decl_str ds) ^ "\t" ^ tail
+     | GFail (i, n, e) -> Printf.sprintf "ERR\t%d\t%s\t%s\t%s" (int_of_nat i) (hex n) (cerr_str e) tail
+     | GPanic (i, p) -> Printf.sprintf "PANIC\t%d\t%s\t%s" (int_of_nat i) (match p with PDigit -> "digit" | PNoTypes -> "no-types") tail
+     | GOverflow i -> Printf.sprintf "OVERFLOW\t%d\t%s" (int_of_nat i) tail)
+  | _ -> "BADARGS"
+
 let pretty args =
   match args with
   | [text; pos; _] ->
@@ -238,6 +290,7 @@ let () =
            | "term" :: args -> do_term args
            | ["bsreg"; k; t; h; c] -> Hashtbl.replace bs_table k (unhex t, unhex h, (if c = "-" then None else Some (unhex c))); "SET"
            | "bs" :: args -> do_bs args
+           | "compile" :: args -> do_compile args
            | other :: _ -> "UNKNOWN\t" ^ other
            | [] -> "EMPTY"
          with
